@@ -35,10 +35,14 @@
 #include "http-parser/http_parser.h"
 #include "http_connection.h"
 #include "http_server.h"
+#include "list.h"
 #include "log.h"
 #include "util.h"
 
 #define CRLF "\r\n"
+
+/* All connections that are alive, upgraded or not. */
+static LIST_HEAD(connection_list);
 
 static int on_url(http_parser *parser, const char *at, size_t length)
 {
@@ -103,7 +107,18 @@ void free_connection(void *context)
 	struct buffered_reader *br = &connection->br;
 	br->close(br->this_ptr);
 
+	list_del(&connection->connection_list);
 	cjet_free(connection);
+}
+
+void destroy_all_http_connections(void)
+{
+	struct list_head *item;
+	struct list_head *tmp;
+	list_for_each_safe (item, tmp, &connection_list) {
+		struct http_connection *connection = list_entry(item, struct http_connection, connection_list);
+		free_connection(connection);
+	}
 }
 
 int send_http_error_response(struct http_connection *connection)
@@ -158,6 +173,7 @@ int init_http_connection2(struct http_connection *connection, const struct http_
 	connection->server = server;
 	connection->compression_level = compression_level;
 	connection->url_handler = NULL;
+	list_add_tail(&connection->connection_list, &connection_list);
 	http_parser_settings_init(&connection->parser_settings);
 	connection->parser_settings.on_url = on_url;
 
@@ -181,5 +197,10 @@ int init_http_connection(struct http_connection *connection, const struct http_s
 
 struct http_connection *alloc_http_connection(void)
 {
-	return cjet_malloc(sizeof(struct http_connection));
+	struct http_connection *connection = cjet_malloc(sizeof(*connection));
+	if (likely(connection != NULL)) {
+		INIT_LIST_HEAD(&connection->connection_list);
+	}
+
+	return connection;
 }
